@@ -20,6 +20,9 @@ RULE = ("call sequences of 1-14 steps drawn from an evolving fake kernel: 1-4 de
         "enumerated per case, answers demanded to be those of one of the two orders of the two operations. Exception part: an OSError "
         "raised at EVERY line of run() of one call (direct API, then further polls; state and answers compared with the abort-point model), "
         "and debug mode on with sys.stderr failing at its k-th write (ENOSPC/EPIPE/EIO/closed, every k) through the public functions. "
+        "Fork part: histories crossing os.fork() (wraps recorded before the fork, the child continues the polls over its own fake /proc "
+        "and reports through a pipe, the parent continues too; also a fork while another thread is stopped inside wrap_numbers()/run() "
+        "with the locks held; no answer within 5 s = hang = violation). "
         "Width part: "
         "tuples that shrink (answered) or grow (IndexError) under one name, judged against the total specification. Exhaustive part: all sequences over one device x 1 counter with readings "
         "{absent,0,1,2} and cache_clear. A case is non-trivial when it has at least two nowrap=True calls under one name; "
@@ -37,6 +40,8 @@ ASSUMPTIONS = ["run() and cache_clear() are atomic (they execute under _WrapNumb
                "direct API: what a call sequence does AFTER a caught IndexError (tuple longer than its predecessor) is outside the model "
                "(the reminders are then partially updated; witness in notes/design/C10.md); unreachable through the public functions",
                "cache_info() returns the live dicts, not copies; the observation is what they show at the call",
+               "fork: only forks of the polling process itself are modelled (children do not fork again); a fork while another thread is "
+               "inside the call is tested (hang / answers), not modelled in the thread machine",
                "exception-atomicity of run() rests on its commit section containing only operations that cannot raise (checked on the "
                "source by the generated table); IndexError from a tuple longer than its predecessor and asynchronous exceptions "
                "(KeyboardInterrupt, MemoryError) are outside the model",
@@ -479,6 +484,54 @@ def _gen_dbg(rng):
     return {"kind": "dbg", "cls": "dbg-pub", "ops": ops}
 
 
+FORK = [
+    # a wrap is recorded, then os.fork(): the child continues the history (raw + offsets of before the fork)
+    {"kind": "fork", "cls": "fork", "pre": [["call", "net", True, True, [["eth0", _net8(100)], ["lo", _net8(5)]], 0],
+                                            ["call", "net", True, True, [["eth0", _net8(10)], ["lo", _net8(6)]], 0]],
+     "child": [["call", "net", True, True, [["eth0", _net8(20)], ["lo", _net8(7)]], 0], ["call", "net", True, True, [["eth0", _net8(5)], ["lo", _net8(8)]], 0]],
+     "parent": [["call", "net", True, True, [["eth0", _net8(30)], ["lo", _net8(1)]], 0], ["call", "net", False, True, [["eth0", _net8(31)], ["lo", _net8(2)]], 0]]},
+    {"kind": "fork", "cls": "fork", "pre": [["call", "disk", True, True, [["sda", [9, 8, 512, 1024, 5, 4, 3, 2, 1]]], 0],
+                                            ["call", "net", True, True, [["lo", _net8(50)]], 0],
+                                            ["call", "disk", True, True, [["sda", [1, 9, 0, 1024, 5, 4, 3, 2, 0]]], 0],
+                                            ["call", "net", True, True, [["lo", _net8(4)]], 0]],
+     "child": [["call", "disk", True, True, [["sda", [2, 9, 512, 1024, 5, 4, 3, 2, 0]]], 0], ["call", "net", True, True, [["lo", _net8(5)]], 0],
+               ["clear", "net", 0], ["call", "net", True, True, [["lo", _net8(1)]], 0]],
+     "parent": [["call", "disk", True, True, [["sda", [0, 9, 0, 512, 5, 4, 3, 2, 0]]], 0], ["call", "net", True, True, [["lo", _net8(3)]], 0]]},
+    # ... while another thread is inside a nowrap=True call (holding _nowrap_lock / _nowrap_lock and _wn.lock)
+    {"kind": "fork", "cls": "fork-locked", "held_at": "wrap_numbers",
+     "pre": [["call", "net", True, True, [["eth0", _net8(100)]], 0], ["call", "net", True, True, [["eth0", _net8(10)]], 0]],
+     "held": ["call", "net", True, True, [["eth0", _net8(12)]], 1],
+     "child": [["call", "net", True, True, [["eth0", _net8(20)]], 0], ["call", "net", True, True, [["eth0", _net8(5)]], 0]],
+     "parent": [["call", "net", True, True, [["eth0", _net8(30)]], 0]]},
+    {"kind": "fork", "cls": "fork-locked", "held_at": "run",
+     "pre": [["call", "disk", True, True, [["sda", [9, 8, 512, 1024, 5, 4, 3, 2, 1]]], 0], ["call", "disk", True, True, [["sda", [1, 9, 0, 1024, 5, 4, 3, 2, 0]]], 0]],
+     "held": ["call", "disk", True, True, [["sda", [2, 9, 0, 1024, 5, 4, 3, 2, 0]]], 1],
+     "child": [["call", "disk", True, True, [["sda", [3, 9, 512, 1024, 5, 4, 3, 2, 0]]], 0], ["call", "net", True, True, [["lo", _net8(1)]], 0]],
+     "parent": [["call", "disk", True, True, [["sda", [0, 9, 0, 512, 5, 4, 3, 2, 0]]], 0]]},
+]
+
+
+def _gen_fork(rng, locked=False):
+    c = _gen_pub(rng)
+    calls = [o for o in c["ops"] if o[0] == "call" or True]
+    while len(calls) < 5:
+        calls += _gen_pub(rng)["ops"]
+    calls = calls[:10]
+    k = rng.randint(2, max(2, len(calls) - 2))
+    pre, rest = calls[:k], calls[k:]
+    j = rng.randint(0, len(rest))
+    case = {"kind": "fork", "cls": "fork", "pre": pre, "child": rest[:j] + [o for o in rest[j:] if rng.random() < 0.5], "parent": rest[j:]}
+    if locked:
+        nw = [o for o in pre if o[0] == "call" and o[3] and o[4]]
+        if nw:
+            h = list(rng.choice(nw))
+            h[4] = [[k2, [max(0, v - rng.choice([0, 1, 3])) for v in vals]] for k2, vals in h[4]]
+            if h[1] == "disk":
+                h[4] = [[k2, [v - v % 512 if i in (2, 3) else v for i, v in enumerate(vals)]] for k2, vals in h[4]]
+            case.update(cls="fork-locked", held=h, held_at=rng.choice(["wrap_numbers", "run"]))
+    return case
+
+
 def _gen_preempt(rng, api):
     if api == "wn":
         k = Kernel(rng, rng.sample(WN_KEYS, rng.choice([2, 3])), rng.choice([1, 2]), False, p_vanish=0.3)
@@ -549,6 +602,11 @@ def gen_cases(rng, tier):
         cases.extend(PREEMPT)
         cases.extend(INJECT)
         cases.extend(DBG)
+        cases.extend(FORK)
+        for _ in range(4 * n):
+            cases.append(_gen_fork(rng))
+        for _ in range(2 * n):
+            cases.append(_gen_fork(rng, locked=True))
         for _ in range(3 * n):
             cases.append(_gen_inject(rng))
         for _ in range(2 * n):
@@ -607,6 +665,8 @@ def _preempt_orders(case):
 
 
 def _ops_of(case):
+    if case["kind"] == "fork":
+        return case["pre"] + case["child"] + case["parent"] + ([case["held"]] if case.get("held") else [])
     if case["kind"] == "inject":
         return case["pre"] + [case["call"]] + case["post"]
     if case["kind"] == "preempt":
@@ -615,12 +675,19 @@ def _ops_of(case):
 
 
 def _is_pub(case):
-    return case["kind"] in ("pub", "dbg") or (case["kind"] in ("conc", "preempt") and case["api"] == "pub")
+    return case["kind"] in ("pub", "dbg", "fork") or (case["kind"] in ("conc", "preempt") and case["api"] == "pub")
 
 
 def coq_term(case):
     if case["kind"] == "race":
         return "JL [%s; %s]" % (_race_term(case, False), _race_term(case, True))
+    if case["kind"] == "fork":
+        pl = lambda q: G.lst([_pop(o) for o in q])
+        if not case.get("held"):
+            return "run_fork %s %s %s" % (pl(case["pre"]), pl(case["child"]), pl(case["parent"]))
+        h = [case["held"]]
+        return "JL [%s]" % "; ".join("run_pub %s %s" % (G.bo(LEGACY_EMPTY), pl(q)) for q in (
+            case["pre"] + case["child"], case["pre"] + h + case["child"], case["pre"] + h + case["parent"]))
     if case["kind"] == "inject":
         return "run_abort %s %s %s %s" % (G.lst([_wop(o) for o in case["pre"]]), G.by(case["call"][1]), _gdict(case["call"][2]),
                                           G.lst([_wop(o) for o in case["post"]]))
@@ -654,6 +721,14 @@ def _canon_info(info):
 
 
 def coq_struct(case, raw):
+    if case["kind"] == "fork":
+        n = len(case["pre"])
+        if not case.get("held"):
+            # model of record: fork is the identity on the wrap state
+            return {"model": {"parent": raw[0], "child": raw[1]}, "spec": {"parent": raw[2], "child": [raw[3]], "held": None}}
+        cut = lambda tr, k: None if tr is None else tr[k:]
+        return {"model": {"parent": raw[2][0], "child": None},
+                "spec": {"parent": raw[2][1], "child": [cut(raw[0][1], n), cut(raw[1][1], n + 1)], "held": True}}
     if case["kind"] == "inject":
         # raw = [[state, answers to the follow-up calls] per abort point, demanded without the call, demanded with it]
         pts = [[_canon_info(T("Val", st)), post] for st, post in raw[0]]
@@ -682,6 +757,8 @@ def coq_struct(case, raw):
 
 
 def finding_key(case, coq):
+    if case["kind"] == "fork":
+        return "fork-while-locked" if case.get("held") else None
     if case["kind"] == "race":
         # two nowrap=True calls overlap: the second platform read falls between the first call's read and its wrap step
         if _race_steps(case, False) != _race_steps(case, True):
@@ -698,6 +775,26 @@ def judge(case, coq, impl):
     from pv.core import Verdict
     if isinstance(impl, dict) and impl.get("t") == "Skip":
         return Verdict("skip", str(impl.get("a")))
+    if case["kind"] == "fork":
+        tag, pre, child, held, parent = impl
+        sp = coq["spec"]
+        if isinstance(child, dict) and child.get("t") == "Hang":
+            return Verdict("violation", "after os.fork() the child's nowrap=True call blocks for ever (%s): a lock held by a thread that does not "
+                           "exist in the child" % (child["a"],))
+        if sp["parent"] is None:
+            return Verdict("skip", "not well-formed")
+        if child not in [c for c in sp["child"] if c is not None]:
+            want = sp["child"][0]
+            j = next((i for i, (a, b) in enumerate(zip(child, want)) if a != b), min(len(child), len(want)))
+            return Verdict("violation", "os.fork(): answer %d of the CHILD is %s, demanded (it continues the parent's history as of the fork) %s" % (
+                j, child[j] if j < len(child) else None, want[j] if j < len(want) else None))
+        full = pre + ([held] if held is not None else []) + parent
+        if full != sp["parent"]:
+            j = next((i for i, (a, b) in enumerate(zip(full, sp["parent"])) if a != b), 0)
+            return Verdict("violation", "os.fork(): answer %d of the PARENT is %s, demanded %s" % (j, full[j], sp["parent"][j]))
+        if coq["model"]["child"] is not None and (child != coq["model"]["child"] or full != coq["model"]["parent"]):
+            return Verdict("corr", "fork: impl != model")
+        return Verdict("ok")
     if case["kind"] == "inject":
         if not isinstance(impl, list) or not impl:
             return Verdict("corr", "no line of _WrapNumbers.run() was reached: %r" % (impl,))
@@ -1041,6 +1138,82 @@ def _run_race(psutil, case):
     return [T("Realised", "other: %r" % (real,)), answers]
 
 
+def _run_fork(psutil, root, case):
+    import json
+    import os
+    import select
+    import signal
+    import time
+    from props import _c10_sched as S
+    pre = [_do_pub(psutil, root, o) for o in case["pre"]]
+    pc = None
+    if case.get("held"):
+        hroot = root + "_held"
+        os.makedirs(os.path.join(hroot, "net"), exist_ok=True)
+        # the other thread's call reads its own listing, then stops inside wrap_numbers()/run() with the lock(s) held
+        def held_call():
+            psutil.PROCFS_PATH = root
+            return _do_pub(psutil, root, case["held"])
+        pc = S.PausedCall(held_call, case["held_at"], hold=0.25)
+        if not pc.wait_paused():
+            raise RuntimeError("fork harness: the other thread did not reach %s()" % case["held_at"])
+    rfd, wfd = os.pipe()
+    pid = os.fork()          # with an at-fork handler that takes the locks this waits until the other thread is through
+    if pid == 0:
+        code = 0
+        try:
+            os.close(rfd)
+            croot = root + "_child"
+            os.makedirs(os.path.join(croot, "net"), exist_ok=True)
+            psutil.PROCFS_PATH = croot
+            trace = []
+            for o in case["child"]:
+                trace.append(_do_pub(psutil, croot, o))
+                if _stopped(trace[-1]):
+                    break
+            os.write(wfd, json.dumps(trace).encode())
+        except BaseException:  # noqa
+            code = 1
+        finally:
+            os._exit(code)
+    os.close(wfd)
+    held = None
+    if pc is not None:
+        pc.release()
+        held = pc.join()
+    buf, deadline, hang = b"", time.time() + 5, False
+    while True:
+        left = deadline - time.time()
+        if left <= 0:
+            hang = True
+            break
+        r, _, _ = select.select([rfd], [], [], left)
+        if not r:
+            hang = True
+            break
+        chunk = os.read(rfd, 65536)
+        if not chunk:
+            break
+        buf += chunk
+    os.close(rfd)
+    if hang:
+        os.kill(pid, signal.SIGKILL)
+    _, status = os.waitpid(pid, 0)
+    if hang:
+        child = T("Hang", "no answer within 5 s")
+    elif not buf:
+        child = T("ChildDied", status)
+    else:
+        child = json.loads(buf.decode())
+    psutil.PROCFS_PATH = root
+    parent = []
+    for o in case["parent"]:
+        parent.append(_do_pub(psutil, root, o))
+        if _stopped(parent[-1]):
+            break
+    return [T("Fork"), pre, child, held, parent]
+
+
 def _run_inject(psutil, root, case):
     import errno
     import linecache
@@ -1141,6 +1314,8 @@ def impl_run(case, coq, env):
             return _run_preempt(psutil, root, case)
         if case["kind"] == "inject":
             return _run_inject(psutil, root, case)
+        if case["kind"] == "fork":
+            return _run_fork(psutil, root, case)
         if case["kind"] == "dbg":
             return _run_dbg(psutil, root, case)
         do = _do_pub if _is_pub(case) else _do_wn
@@ -1205,7 +1380,11 @@ MANIFEST = {
             "comparing every answer and cache_info(). Exception-atomicity: run() is modelled as a sequence of state updates with a possible "
             "abort after each; the first abort point is the untouched state, the last the completed call, the ones in between are refuted "
             "with a witness (a wrap counted twice), and the source's commit sections are proved (generated table, ast) to contain only "
-            "operations that cannot raise; exceptions injected at every line of run() and a failing sys.stderr in debug mode tie this to the code.",
+            "operations that cannot raise; exceptions injected at every line of run() and a failing sys.stderr in debug mode tie this to the code. "
+            "os.fork(): a Fork event in the history language, fork = identity on the wrap state: for every history of calls and forks the "
+            "child's answers are those of the unforked continuation and the parent's do not depend on its forks; the generated table of "
+            "os.register_at_fork handlers (ast) is proved not to touch the wrap state; real forks of the worker (also while another thread "
+            "holds the locks) tie this to the code.",
     "note": "Trusted: Coq kernel + vm_compute; hand-written model coq/C10/Model.v (tied by the correspondence run only); the ghost "
             "specification coq/C10/Spec.v and the linearisation reading of concurrent executions; harness; CPython builtins and threading.Lock. "
             "Atomicity of run()/cache_clear() and of read+wrap under _nowrap_lock is an assumption of the model (the locks), exercised but "
